@@ -298,7 +298,32 @@ class StmtMixin(object):
                     return None
         return out
 
+    def _only_dropped_calls(self, body):
+        if not body:
+            return False
+        for st in body:
+            if st.k == 'Print':
+                continue
+            if st.k == 'Expr' and st.e.k == 'Call':
+                f = st.e.func
+                if (f.k == 'Name' and f.id in ('print', 'warn')) or (f.k == 'Attr' and f.obj.k == 'Name' and
+                                                                      ((f.obj.id == 'warnings' and f.attr == 'warn') or f.obj.id == 'logging')):
+                    continue
+            return False
+        return True
+
     def s_If(self, s):
+        # `if <test>: warnings.warn(...)` (nothing else, no else branch): the whole statement is diagnostics; when the test itself is
+        # outside the subset it is dropped together with the call (counted)
+        if len(s.tests) == 1 and not s.orelse and self._only_dropped_calls(s.tests[0][1]):
+            try:
+                cv = self.truth(self.eval(s.tests[0][0]))
+            except Unsupported:
+                self.dropped['warn'] += 1
+                return
+            if self.branch(cv):
+                self.exec_block(s.tests[0][1])
+            return
         # small conditional updates of numeric locals (e.g. `if dif < 0: dif = -dif`) are merged into ite terms instead of
         # forking the path
         if len(s.tests) == 1:
@@ -698,6 +723,8 @@ class StmtMixin(object):
                     pass
                 except BreakSig:
                     self.loop_stack.pop()
+                    for (label, ir, txt) in getattr(spec, 'breaks', []):
+                        self.oblige('step', self.spec_truth(ir), label='%s:at-break:%s' % (lname, label), line=s.line, note=txt)
                     return       # continue after the loop with this state
             except (ReturnSig, RaiseSig):
                 self.loop_stack.pop()
